@@ -88,6 +88,10 @@ def run(ctx: Ctx):
                         'write to them is a frame violation']
     ctx.functions['dznpy.json_ast.DznJsonAst.process'] = 'proved on the corpus (result independent of old state)'
     ctx.functions['dznpy.json_ast.DznJsonAst.__init__'] = 'executed'
+    # unbounded part: process() on a parser object in an ARBITRARY earlier state returns the declarations of the loaded
+    # document only (well-formed documents of any size / nesting; parse_element by the contract proved under C05)
+    from props import parse_unbounded
+    parse_unbounded.run_documents(ctx, parts=('process',))
     jobs = list(D.documents().items())
     status, msg = parallel_jobs(ctx, jobs, lambda sub, j: check_doc(sub, j[0], j[1]), lambda j: j[0])
     if status == 'crash':
@@ -103,5 +107,7 @@ def make_replay(ctx, o):
 
 
 def native_search(ctx, o):
+    if ':json_ast.process[' in o.id:
+        return {'script': 'native/replay_parse.py', 'input': {'function': 'process', 'mode': 'repeat'}}
     return {'script': 'native/replay_parser.py', 'input': {'search': [
         {'doc': d, 'names': {}, 'property': 'C16'} for d in D.documents()]}}
